@@ -30,7 +30,7 @@ def schemes():
 # "one protection per family" for the quick tier: every KDF family, every cipher family, the default scheme
 QUICK_SCHEMES = ["PBKDF2WithHMAC-SHA1AndDES-EDE3-CBC", "PBKDF2WithHMAC-SHA256AndAES128-CBC", "PBKDF2WithHMAC-SHA512AndAES256-CBC",
                  "PBKDF2WithHMAC-SHA512-256AndAES192-CBC", "PBKDF2WithHMAC-SHA3-256AndAES128-CBC", "scryptAndAES128-CBC", "scryptAndDES-EDE3-CBC",
-                 "PBKDF2WithHMAC-SHA224AndAES128-GCM", "scryptAndAES256-GCM"]
+                 "PBKDF2WithHMAC-SHA224AndAES128-GCM", "scryptAndAES256-GCM", "PBKDF2WithHMAC-SHA384AndAES192-GCM"]      # every cipher name at least once
 
 
 def small_params(req, rnd, vary):
